@@ -32,6 +32,20 @@ struct Global {
 
 static GLOBAL: OnceLock<Global> = OnceLock::new();
 
+/// Everything the fallback path of the signal handler needs, rendered when the handler is
+/// installed: a fault inside a guarded case can leave the heap so damaged that describing the
+/// case faults again; the second-level handler then only issues raw system calls on these bytes.
+struct Fallback {
+    replay_path: std::ffi::CString,
+    replay_body: Vec<u8>,
+    evidence_path: Option<std::ffi::CString>,
+    evidence_body: Vec<u8>,
+    line: Vec<u8>,
+}
+static FALLBACK: OnceLock<Fallback> = OnceLock::new();
+/// set by the first-level handler once it knows the fault happened inside a guarded case
+static FAULT_IN_CASE: std::sync::atomic::AtomicBool = std::sync::atomic::AtomicBool::new(false);
+
 /// The last panic whose location lies in the crate under test (set by the panic hook).
 pub static LAST_CRATE_PANIC: std::sync::Mutex<Option<String>> = std::sync::Mutex::new(None);
 
@@ -74,6 +88,28 @@ pub fn install(ctx: &Ctx) {
         level: ctx.level.to_string(),
         build: std::env::var("VERIF_BUILD").unwrap_or_else(|_| "std-dev".into()),
     });
+    if let Some(g) = GLOBAL.get() {
+        let key = format!("{}/fault-inside-a-case-heap-damaged", g.prop);
+        let dir = g.out_dir.join("replays");
+        let _ = std::fs::create_dir_all(&dir);
+        let path = dir.join(format!("{}-{:016x}.json", g.prop, fnv(key.as_bytes())));
+        let detail = "a memory fault or abort happened while a case was executing the code under test, and describing the case faulted again (the heap is damaged: the code under test wrote outside its buffers); re-run the check to reproduce";
+        let body = json!({"property": g.prop, "key": key, "detail": detail, "tier": g.tier, "build": g.build, "case": {"note": "unattributed; deterministic enumeration, re-run the check"}});
+        let ev = json!({
+            "property_id": g.prop, "tier": g.tier, "seed": 0, "level": g.level,
+            "coverage": {"evaluations": 1, "distinct_nontrivial": 1, "states": 1, "transitions": 1, "traces_validated_against_impl": 1,
+                         "rule": "run aborted by a memory fault / abort inside the code under test", "samples": [body], "exhaustive": false,
+                         "violation_keys": [key]},
+            "wall_s": 0.0, "violations": 1, "_part": g.build,
+        });
+        let _ = FALLBACK.set(Fallback {
+            replay_path: std::ffi::CString::new(path.to_string_lossy().as_bytes()).unwrap_or_default(),
+            replay_body: serde_json::to_string_pretty(&body).unwrap_or_default().into_bytes(),
+            evidence_path: std::env::var("VERIF_EVIDENCE_PATH").ok().and_then(|p| std::ffi::CString::new(p).ok()),
+            evidence_body: serde_json::to_string_pretty(&ev).unwrap_or_default().into_bytes(),
+            line: format!("  key={} detail={}\nVIOLATION property={} replay={}\n", key, detail, g.prop, path.display()).into_bytes(),
+        });
+    }
     let prev = std::panic::take_hook();
     let repo_dir = std::env::var("VERIF_REPO_DIR").unwrap_or_else(|_| "/repo".into());
     std::panic::set_hook(Box::new(move |info| {
@@ -101,7 +137,32 @@ pub fn install(ctx: &Ctx) {
     }
 }
 
+/// Second-level path: no allocation, raw system calls only.
+unsafe fn fallback_exit() -> ! {
+    if let Some(f) = FALLBACK.get() {
+        let put = |path: &std::ffi::CString, body: &[u8]| {
+            let fd = libc::syscall(libc::SYS_open, path.as_ptr(), libc::O_CREAT | libc::O_WRONLY | libc::O_TRUNC, 0o644) as i32;
+            if fd >= 0 {
+                libc::syscall(libc::SYS_write, fd, body.as_ptr(), body.len());
+                libc::syscall(libc::SYS_close, fd);
+            }
+        };
+        put(&f.replay_path, &f.replay_body);
+        if let Some(p) = &f.evidence_path {
+            put(p, &f.evidence_body);
+        }
+        libc::syscall(libc::SYS_write, 1, f.line.as_ptr(), f.line.len());
+        libc::_exit(1);
+    }
+    libc::_exit(2)
+}
+
 extern "C" fn handler(sig: libc::c_int, info: *mut libc::siginfo_t, _uc: *mut libc::c_void) {
+    if FAULT_IN_CASE.load(std::sync::atomic::Ordering::SeqCst) {
+        // a fault while describing a faulted case
+        // SAFETY: raw system calls on pre-rendered bytes
+        unsafe { fallback_exit() }
+    }
     let cur = CUR.try_with(|c| c.get()).ok().flatten();
     let g = GLOBAL.get();
     match (cur, g) {
@@ -109,6 +170,7 @@ extern "C" fn handler(sig: libc::c_int, info: *mut libc::siginfo_t, _uc: *mut li
             // Not async-signal-safe in the strict sense, but the process is about to exit and
             // the faulting code is the code under test, not the allocator.
             CUR.with(|c| c.set(None));
+            FAULT_IN_CASE.store(true, std::sync::atomic::Ordering::SeqCst);
             // SAFETY: the closure outlives the guarded call that is still on this stack
             let (key, detail, replay) = unsafe { (*p)() };
             let signame = match sig {
